@@ -24,7 +24,7 @@ ASSUMPTIONS = [
 XCELLS = [None, 1, 2, 2.5, NAN(1), 'a', 'ab']          # NAN(1): one NaN object per *cell* (fresh ids per row below)
 VALS = [None, 1, 2, 2.5, 'a', 'ab', 3]                # 3 matches nothing
 REGEX = ['a', '^a$', 'zzz', 'b$']
-FUNCS = ['x_is_none', 'y_even', 'true', 'false', 'x_str', 'xy', 'y_mod2', 'x_itself', 'y_or_none', 'x_len', 'kwonly', 'kwonly_nodefault', 'partial', 'wrapped_try', 'wrapped_ks']
+FUNCS = ['x_is_none', 'y_even', 'true', 'false', 'x_str', 'xy', 'y_mod2', 'x_itself', 'y_or_none', 'x_len', 'kwonly', 'kwonly_nodefault', 'partial', 'wrapped_try', 'wrapped_ks', 'yx']
 
 
 def _kwonly(x, *, y=-5):
@@ -59,6 +59,8 @@ def _funcs():
         # a predicate wrapped by one of the library's own decorators is a callable like any other (the wrapper objects happen to be dict subclasses)
         'wrapped_try': (__import__('pyg_base').try_false(lambda x: len(x) == 1), lambda r: isinstance(r['x'], str) and len(r['x']) == 1),
         'wrapped_ks': (__import__('pyg_base').kwargs_support(lambda y: y >= 1), lambda r: r['y'] >= 1),
+        # parameters listed in ANOTHER order than the table holds its columns, and not interchangeable: each is bound by name
+        'yx': (lambda y, x: x is None and y in (1, 3), lambda r: r['x'] is None and r['y'] in (1, 3)),
     }
 
 
@@ -81,6 +83,10 @@ def conditions():
     conds.append(['kw', {'x': ['list', [None]]}])
     for p in REGEX:
         conds.append(['kw', {'x': ['re', p]}])
+    # a pattern compiled WITH FLAGS: the compiled object is the condition, flags included
+    conds.append(['kw', {'x': ['rei', 'A']}])
+    conds.append(['kw', {'x': ['rei', 'B$']}])
+    conds.append(['dict', {'x': ['rei', 'aB']}])
     # conjunctions with a second column
     for xc in (['val', 1], ['val', None], ['nan'], ['list', [1, 'a']], ['re', 'a']):
         for yc in (['val', 0], ['list', [0, 2]], ['list', [1, 3]], ['val', 9]):
@@ -120,6 +126,8 @@ def _mk_value(c):
         return tuple(c[1])
     if t == 're':
         return re.compile(c[1])
+    if t == 'rei':
+        return re.compile(c[1], re.IGNORECASE)
     raise ValueError(c)
 
 
@@ -137,6 +145,8 @@ def _pred_one(c, cell):
                    for u in c[1])
     if t == 're':
         return isinstance(cell, str) and re.search(c[1], cell) is not None
+    if t == 'rei':
+        return isinstance(cell, str) and re.search(c[1], cell, re.IGNORECASE) is not None
     raise ValueError(c)
 
 
